@@ -36,7 +36,8 @@ pub fn meta(tier: Tier) -> CheckMeta {
             "same binary in all processes; other compilers/targets are not observable here".into(),
             "128-bit collisions are out of scope".into(),
         ],
-        parts: vec![PartSpec {
+        parts: {
+            let mut parts = vec![PartSpec {
             name: "native",
             nshards: 16,
             budget_s: tier.pick(240, 2400),
@@ -44,7 +45,10 @@ pub fn meta(tier: Tier) -> CheckMeta {
             program: None,
             prepare: None,
             sanitizer: None,
-        }],
+        }];
+            if tier == Tier::Thorough { parts.push(crate::sup::sanitizer_part("miri", 16, tier.pick(900, 2400))); }
+            parts
+        },
         must_be_nonzero: vec![
             ("unequal_pairs", "no unequal pair generated"),
             ("history_pairs", "no history pair"),
@@ -374,7 +378,7 @@ pub fn worker(ctx: &WorkerCtx) -> Report {
             cross_process(ctx, &mut rep);
         }
     }
-    let iters = if ctx.part == "miri" { 2 } else { ctx.pick(2000, 40_000) };
+    let iters = if ctx.part == "miri" { 1 } else { ctx.pick(2000, 40_000) };
     ctx.announce("hash universe");
     let mut v = HV { ctx, rep: &mut rep, idx: 0, iters, rng: Rng::new(ctx.seed).derive(13) };
     gen_types::visit_hash_types(&mut v);
